@@ -7,7 +7,7 @@
 //          rvalues of a move-only type.
 //   IntF : update_tuple_sketch<int64_t> with the DEFAULT policies (Summary() then +=; union +=), tuple_intersection<int64_t, sum>
 //   ArrF : update_array_of_doubles_sketch, array_of_doubles_union, array_of_doubles_intersection<sum>, array_of_doubles_a_not_b
-// Protocol: see coq/TupleDefs.v (step).
+// Protocol: see coq/TupleDefs.v (step); ops 30..34 (images) see coq/TupleCodecDefs.v.
 #include "common.hpp"
 #include <algorithm>
 #include "theta_sketch.hpp"
@@ -314,6 +314,106 @@ template<class F> static void new_union(const Line& t, Out& o) {
   regs[(long)t.at(1)] = std::move(g); o.R(1);
 }
 
+
+// ---------------------------------------------------------------- images (C09/C10/C11 codec family; model: coq/TupleCodecDefs.v)
+// compact_tuple_sketch<T> for T = int64_t / double / float through the default serde; the protected field constructor is
+// reached from a derived class. Summaries travel as bit patterns.
+template<class T> struct Pat;
+template<> struct Pat<int64_t> { static int64_t of(I v) { return (int64_t)(uint64_t)v; } static I to(int64_t x) { return (I)(uint64_t)x; } };
+template<> struct Pat<double> { static double of(I v) { return vh::bitsd(v); } static I to(double x) { return vh::dbits(x); } };
+template<> struct Pat<float> { static float of(I v) { return vh::bitsf(v); } static I to(float x) { return vh::fbits(x); } };
+template<class T> struct OpenC: public compact_tuple_sketch<T> {
+  typedef compact_tuple_sketch<T> B; typedef typename B::Entry Entry;
+  OpenC(bool e, bool o, uint16_t sh, uint64_t th, std::vector<Entry>&& ents): B(e, o, sh, th, std::move(ents)) {}
+};
+// serialize(): the byte image, the stream image and the image behind a 13-byte header must agree
+template<class Sk> static void image(const Sk& s, Out& o) {
+  auto bytes = s.serialize();
+  std::stringstream ss; s.serialize(ss); std::string str = ss.str();
+  if (str.size() != bytes.size() || (str.size() && memcmp(str.data(), bytes.data(), str.size()) != 0)) { o.R(-4); return; }
+  auto hb = s.serialize(13);
+  if (hb.size() != bytes.size() + 13 || (bytes.size() && memcmp(hb.data() + 13, bytes.data(), bytes.size()) != 0)) { o.R(-5); return; }
+  for (int i = 0; i < 13; ++i) if (hb[i] != 0) { o.R(-5); return; }
+  for (uint8_t b : bytes) o.R(b);
+}
+template<class T> static void show_t(const compact_tuple_sketch<T>& s, Out& o) {
+  o.R(s.is_empty()); o.R(s.is_ordered()); o.R(s.get_seed_hash()); o.R((I)s.get_theta64()); o.R((I)s.get_num_retained());
+  for (const auto& e : s) { o.R((I)e.first); o.R(Pat<T>::to(e.second)); }
+}
+static void show_a(const compact_array_of_doubles_sketch& s, Out& o) {
+  o.R(s.is_empty()); o.R(s.is_ordered()); o.R(s.get_seed_hash()); o.R((I)s.get_theta64()); o.R((I)s.get_num_values()); o.R((I)s.get_num_retained());
+  for (const auto& e : s) { o.R((I)e.first); for (uint8_t i = 0; i < s.get_num_values(); ++i) o.R(vh::dbits(e.second[i])); }
+}
+template<class T> static void codec_build(const Line& t, Out& o) {
+  typedef typename compact_tuple_sketch<T>::Entry Entry;
+  std::vector<Entry> ents;
+  for (size_t i = 6; i + 1 < t.size(); i += 2) ents.push_back(Entry((uint64_t)t[i], Pat<T>::of(t[i + 1])));
+  OpenC<T> s(t.at(2) != 0, t.at(3) != 0, (uint16_t)t.at(4), (uint64_t)t.at(5), std::move(ents));
+  image(s, o);
+}
+struct Buf {   // exact-size heap copy of the bytes of an op (so that ASan sees any read past the end)
+  size_t n; std::unique_ptr<uint8_t[]> p;
+  Buf(const Line& t, size_t from): n(t.size() - from), p(new uint8_t[n ? n : 1]) { for (size_t i = 0; i < n; ++i) p[i] = (uint8_t)t[from + i]; }
+};
+template<class T> static void codec_tuple(int code, const Line& t, Out& o) {
+  if (code == 32) {
+    std::string str; for (size_t i = 3; i < t.size(); ++i) str.push_back((char)(uint8_t)t[i]);
+    std::istringstream is(str);
+    auto s = compact_tuple_sketch<T>::deserialize(is);
+    long pos = is.good() ? (long)is.tellg() : -1;
+    o.R(1); o.R(pos); show_t(s, o); return;
+  }
+  Buf b(t, 3);
+  auto s = compact_tuple_sketch<T>::deserialize(b.p.get(), b.n);
+  if (code == 31) { o.R(1); show_t(s, o); } else image(s, o);
+}
+static void codec_array(int code, const Line& t, Out& o) {
+  if (code == 32) {
+    std::string str; for (size_t i = 3; i < t.size(); ++i) str.push_back((char)(uint8_t)t[i]);
+    std::istringstream is(str);
+    auto s = compact_array_of_doubles_sketch::deserialize(is);
+    long pos = is.good() ? (long)is.tellg() : -1;
+    o.R(1); o.R(pos); show_a(s, o); return;
+  }
+  Buf b(t, 3);
+  auto s = compact_array_of_doubles_sketch::deserialize(b.p.get(), b.n);
+  if (code == 31) { o.R(1); show_a(s, o); } else image(s, o);
+}
+static void codec_op(int code, const Line& t, Out& o) {
+  int kind = (int)t.at(1);
+  if (code == 30) {
+    if (kind == 0) codec_build<int64_t>(t, o); else if (kind == 1) codec_build<double>(t, o); else if (kind == 2) codec_build<float>(t, o);
+    else throw std::invalid_argument("bad kind");
+    return;
+  }
+  if (code == 34) {
+    Reg& g = get(t.at(1));
+    if (g.ic) image(*g.ic, o);
+    else if (g.ac) { compact_array_of_doubles_sketch a(*g.ac, false); image(a, o); }
+    else throw std::invalid_argument("no image for this register");
+    return;
+  }
+  if (code == 35) {
+    Reg& g = get(t.at(1)); bool stream = t.at(2) != 0;
+    if (g.ic) {
+      auto bytes = g.ic->serialize();
+      if (stream) { std::string str(bytes.begin(), bytes.end()); std::istringstream is(str);
+        auto s = compact_tuple_sketch<int64_t>::deserialize(is); long pos = is.good() ? (long)is.tellg() : -1; o.R(1); o.R(pos); show_t(s, o); }
+      else { auto s = compact_tuple_sketch<int64_t>::deserialize(bytes.data(), bytes.size()); o.R(1); show_t(s, o); }
+    } else if (g.ac) {
+      compact_array_of_doubles_sketch a(*g.ac, false); auto bytes = a.serialize();
+      if (stream) { std::string str(bytes.begin(), bytes.end()); std::istringstream is(str);
+        auto s = compact_array_of_doubles_sketch::deserialize(is); long pos = is.good() ? (long)is.tellg() : -1; o.R(1); o.R(pos); show_a(s, o); }
+      else { auto s = compact_array_of_doubles_sketch::deserialize(bytes.data(), bytes.size()); o.R(1); show_a(s, o); }
+    } else throw std::invalid_argument("no image for this register");
+    return;
+  }
+  if ((uint16_t)t.at(2) != compute_seed_hash(DEFAULT_SEED)) { o.R(-6); return; }   // the readers are called with DEFAULT_SEED
+  if (kind == 0) codec_tuple<int64_t>(code, t, o); else if (kind == 1) codec_tuple<double>(code, t, o);
+  else if (kind == 2) codec_tuple<float>(code, t, o); else if (kind == 3) codec_array(code, t, o);
+  else throw std::invalid_argument("bad kind");
+}
+
 static void handler(const Line& t, Out& o) {
   int code = (int)t.at(0);
   switch (code) {
@@ -402,6 +502,7 @@ static void handler(const Line& t, Out& o) {
   case 19: { Reg& ga = get(t.at(1));
     if (is_log(ga)) anotb<LogF>(t, o); else if (is_int(ga)) anotb<IntF>(t, o); else if (is_arr(ga)) anotb<ArrF>(t, o); else throw std::invalid_argument("not a sketch");
     break; }
+  case 30: case 31: case 32: case 33: case 34: case 35: codec_op(code, t, o); break;
   default: o.R(-2);
   }
 }
